@@ -331,3 +331,10 @@ package hrpc
 //@   requires *MutationProtoDeleteFamilyVersion == 3 && *MutationProtoDeleteFamily == 2 && *MutationProtoDeleteOneVersion == 0 && *MutationProtoDeleteMultipleVersions == 1
 //@   ensures[C01] r0 != nil && ownSpecifier(r0.Region, m.region)
 //@   ensures[C01] r0.Mutation != nil && sameslice(r0.Mutation.Row, m.key)
+//@ func hrpc.(*baseQuery).Priority
+//@   modifies nothing
+//@   ensures r0 == bq.priority
+//@ func hrpc.Priority
+//@   modifies nothing
+//@ func hrpc.RenewInterval
+//@   modifies nothing
